@@ -43,7 +43,9 @@ func verifEvent(v *Reader, op string, arg int, off int, result string) {
 	VerifReaderHook(e)
 }
 
-func verifSeek(v *Reader, offset int)                  { verifEvent(v, "seek", offset, v.offset, "") }
-func verifRead(v *Reader, length int, result string)   { verifEvent(v, "read", length, v.offset, result) }
-func verifReadAt(v *Reader, length int, result string) { verifEvent(v, "readat", length, v.offset, result) }
-func verifReadAt0(v *Reader, length int, offset int)   { verifEvent(v, "readat0", length, offset, "") }
+func verifSeek(v *Reader, offset int)                { verifEvent(v, "seek", offset, v.offset, "") }
+func verifRead(v *Reader, length int, result string) { verifEvent(v, "read", length, v.offset, result) }
+func verifReadAt(v *Reader, length int, result string) {
+	verifEvent(v, "readat", length, v.offset, result)
+}
+func verifReadAt0(v *Reader, length int, offset int) { verifEvent(v, "readat0", length, offset, "") }
